@@ -3,6 +3,7 @@ package c04
 import (
 	"fmt"
 	"hash/fnv"
+	"os"
 	"path/filepath"
 	"strings"
 
@@ -163,9 +164,27 @@ type gatedStats struct {
 
 // runGatedScenario returns (problem class, witness) or "".
 func runGatedScenario(r *ev.Run, dir string, cfg gatedCfg, seed uint64, W, B, nIDs int) (string, *gatedWitness, *gatedStats, *sched.Result) {
+	return runGatedScenarioOpt(r, dir, cfg, seed, W, B, nIDs, nil)
+}
+
+// gatedOpts lets the enumeration part drive the same scenario/oracle with its own chooser.
+type gatedOpts struct {
+	Tag     string
+	ChooseR func(r *sched.Runner, st mon.Status, strict bool) mon.Waiter
+	Gates   []string
+}
+
+func runGatedScenarioOpt(r *ev.Run, dir string, cfg gatedCfg, seed uint64, W, B, nIDs int, opt *gatedOpts) (string, *gatedWitness, *gatedStats, *sched.Result) {
 	g := rng.New(seed)
 	writers, ids, keys := genWriters(g.Derive("writers"), W, B, nIDs)
 	sc := &sched.Scenario{Dir: filepath.Join(dir, fmt.Sprintf("g-%s-%x", cfg.Name, seed)), KV: cfg.KV, Writers: writers, G: g.Derive("sched"), MaxSteps: 400, Policy: sched.Policies[int(seed%uint64(len(sched.Policies)))]}
+	if opt != nil {
+		sc.Dir += "-" + opt.Tag
+		sc.ChooseR = opt.ChooseR
+		if opt.Gates != nil {
+			sc.Gates = opt.Gates
+		}
+	}
 	stats := &gatedStats{}
 	var problem string
 	var wit *gatedWitness
@@ -262,6 +281,9 @@ func runGatedScenario(r *ev.Run, dir string, cfg gatedCfg, seed uint64, W, B, nI
 		wit = &gatedWitness{Config: cfg.Name, Seed: seed, Writers: writers, Schedule: res.Schedule, IntroOrder: res.IntroOrder, Detail: strings.Join(res.Errors, "; ")}
 	}
 	stats.introOrder = strings.Join(res.IntroOrder, ",")
+	if problem == "" && !res.TimedOut {
+		_ = os.RemoveAll(sc.Dir)
+	}
 	return problem, wit, stats, res
 }
 
